@@ -55,7 +55,29 @@ int main(int argc, char** argv) {
         }
         for (long j = 0; j < per * 8; j++) { uint32_t x = rng.u32(); row_conv(x, (int)rng.below(2001) - 1000); }
         for (int d = -4; d <= 4; d++) { row_conv(0x80000000u + (uint32_t)d, d * 3); row_conv((uint32_t)d, -d); row_conv(0x7fffffffu + (uint32_t)d, 1 << 19); }
-    } else { fprintf(stderr, "usage: h_arith grid|edges ...\n"); return 2; }
+    } else if (!strcmp(mode, "mix")) {    // histories: the calls that make up a row are interleaved with calls for other message-space sizes
+        std::vector<long> Ms = vh_list(vh_sarg(argc, argv, "--M", "2,3,4,5,7,8,16,1000,1024,2048,4096,32768"));
+        long iters = vh_arg(argc, argv, "--iters", 2000); VhRng rng(vh_arg(argc, argv, "--seed", 1));
+        auto pickx = [&](long M) -> uint32_t { if (rng.below(3)) return rng.u32(); uint64_t k = rng.below((uint32_t)M); unsigned __int128 num = ((unsigned __int128)(2 * k + rng.below(2))) << 32; return (uint32_t)(num / (2 * (uint64_t)M)) + (uint32_t)((int)rng.below(5) - 2); };
+        for (long it = 0; it < iters; it++) {
+            int32_t M1 = (int32_t)Ms[rng.below(Ms.size())], M2 = (int32_t)Ms[rng.below(Ms.size())], M3 = (int32_t)Ms[rng.below(Ms.size())];
+            uint32_t x1 = pickx(M1), x3 = pickx(M3); int32_t mu2 = (int32_t)rng.below((uint32_t)M2);
+            int32_t r1, r3, back2; Torus32 ap1, ap3, t1, t2, t3;
+            switch (rng.below(4)) {
+            case 0: r1 = modSwitchFromTorus32((Torus32)x1, M1); t2 = modSwitchToTorus32(mu2, M2); back2 = modSwitchFromTorus32(t2, M2); ap3 = approxPhase((Torus32)x3, M3); r3 = modSwitchFromTorus32((Torus32)x3, M3);
+                    ap1 = approxPhase((Torus32)x1, M1); t1 = modSwitchToTorus32(r1, M1); t3 = modSwitchToTorus32(r3, M3); break;
+            case 1: ap1 = approxPhase((Torus32)x1, M1); r3 = modSwitchFromTorus32((Torus32)x3, M3); t2 = modSwitchToTorus32(mu2, M2); r1 = modSwitchFromTorus32((Torus32)x1, M1); t3 = modSwitchToTorus32(r3, M3);
+                    back2 = modSwitchFromTorus32(t2, M2); t1 = modSwitchToTorus32(r1, M1); ap3 = approxPhase((Torus32)x3, M3); break;
+            case 2: t2 = modSwitchToTorus32(mu2, M2); r1 = modSwitchFromTorus32((Torus32)x1, M1); ap3 = approxPhase((Torus32)x3, M3); back2 = modSwitchFromTorus32(t2, M2); t1 = modSwitchToTorus32(r1, M1);
+                    r3 = modSwitchFromTorus32((Torus32)x3, M3); ap1 = approxPhase((Torus32)x1, M1); t3 = modSwitchToTorus32(r3, M3); break;
+            default: r3 = modSwitchFromTorus32((Torus32)x3, M3); ap1 = approxPhase((Torus32)x1, M1); t2 = modSwitchToTorus32(mu2, M2); t3 = modSwitchToTorus32(r3, M3); r1 = modSwitchFromTorus32((Torus32)x1, M1);
+                    ap3 = approxPhase((Torus32)x3, M3); back2 = modSwitchFromTorus32(t2, M2); t1 = modSwitchToTorus32(r1, M1); break;
+            }
+            VH_B; vh_s("k", "ms"); VH_C; vh_w("x", x1); VH_C; vh_i("M", M1); VH_C; vh_i("r", r1); VH_C; vh_w("ap", (uint32_t)ap1); VH_C; vh_w("t", (uint32_t)t1); VH_E;
+            VH_B; vh_s("k", "enc"); VH_C; vh_i("mu", mu2); VH_C; vh_i("M", M2); VH_C; vh_w("t", (uint32_t)t2); VH_C; vh_i("back", back2); VH_E;
+            VH_B; vh_s("k", "ms"); VH_C; vh_w("x", x3); VH_C; vh_i("M", M3); VH_C; vh_i("r", r3); VH_C; vh_w("ap", (uint32_t)ap3); VH_C; vh_w("t", (uint32_t)t3); VH_E;
+        }
+    } else { fprintf(stderr, "usage: h_arith grid|edges|mix ...\n"); return 2; }
     fflush(stdout);
     return 0;
 }
